@@ -18,6 +18,8 @@ func checkC08(c *Check, a *Anchors) {
 	}
 	c08CopyExhaustive(c, a)
 	namespaceAlwaysPrepended(c, a)
+	decodeNoSilentOverwrite(c, a)
+	remoteClassificationAgrees(c, a)
 	aliasFromLocalName(c, a)
 	c10PhaseSources(c, a) // "sees the include's vars": the included-Taskfile variables of a merged task come from the included file, the include variables from the include statement
 	c08UnmarshalExhaustive(c, a)
